@@ -148,7 +148,8 @@ int main() {
             else if (a == "appendLit") x.append(lit.data(), lit.size());
             else if (a == "pushBack") x.append(char(c));
             else if (a == "rawAppend") {
-                char *p = x.rawAppendStart(lit.size() + n);
+                const unsigned long long want = (unsigned long long)lit.size() + n; // anticipated size; kept below npos
+                char *p = x.rawAppendStart(want >= SBuf::npos ? SBuf::npos - 1 : SBuf::size_type(want));
                 if (!lit.empty()) memcpy(p, lit.data(), lit.size());
                 x.rawAppendFinish(p, lit.size());
             } else if (a == "appendf") { if (f1) x.appendf("%s|%d", y.c_str(), int(n)); else x.appendf("%s", y.c_str()); }
